@@ -1,6 +1,7 @@
 import AvroModel
 import AvroProofs.Lemmas.Container
 import AvroProofs.Lemmas.SpecEncode
+import AvroProofs.Lemmas.Prim
 /-!
 # C04 — object container files conform to the specified layout in both directions
 
@@ -24,12 +25,12 @@ theorem filterMap_meta (es : List (Bytes × Bytes)) :
 /-- **reader, header**: any specification-legal encoding `menc` of the metadata map — whatever
 its block partitioning and whatever additional keys it holds — followed by a 16-byte marker is
 accepted; the reader sees exactly the entries and the marker. -/
-theorem header_accepted (cfg : Cfg) (hl : cfg.lim < 2^63) (h1 : 1 ≤ cfg.szValue) (h2 : 1 ≤ cfg.szEntry) (hP : PrimFacts)
+theorem header_accepted (cfg : Cfg) (hl : cfg.lim < 2^63) (h1 : 1 ≤ cfg.szValue) (h2 : 1 ≤ cfg.szEntry)
     (es : List (Bytes × Bytes)) (menc marker : Bytes) (hm : marker.length = 16)
     (hspec : SpecEnc cfg [] (.map .bytes) (metaValue es) menc) :
     ∃ n, ∀ fuel, n ≤ fuel → ∀ rest,
       readHeader cfg fuel (magic ++ menc ++ marker ++ rest) = .ok (es, marker, rest) := by
-  obtain ⟨n, H⟩ := spec_dc hl h1 h2 hP hspec
+  obtain ⟨n, H⟩ := spec_dc hl h1 h2 primFacts hspec
   refine ⟨n, fun fuel hf rest => ?_⟩
   unfold readHeader
   have e : magic ++ menc ++ marker ++ rest = magic ++ (menc ++ (marker ++ rest)) := by simp
@@ -45,7 +46,7 @@ theorem header_accepted (cfg : Cfg) (hl : cfg.lim < 2^63) (h1 : 1 ≤ cfg.szValu
 any number of well-formed blocks in any partitioning (one value per block, one block, …), any codec
 with a round trip — is read to exactly its metadata, marker and values, ending cleanly. -/
 theorem reader_accepts (cfg : Cfg) (codec : Codec) (env : Names) (schema : Schema)
-    (hl : cfg.lim < 2^63) (h1 : 1 ≤ cfg.szValue) (h2 : 1 ≤ cfg.szEntry) (hP : PrimFacts)
+    (hl : cfg.lim < 2^63) (h1 : 1 ≤ cfg.szValue) (h2 : 1 ≤ cfg.szEntry)
     (es : List (Bytes × Bytes)) (menc marker : Bytes) (hm : marker.length = 16)
     (hspec : SpecEnc cfg [] (.map .bytes) (metaValue es) menc)
     (hc : ∀ x, codec.decompress (codec.compress x) = .ok x)
@@ -55,7 +56,7 @@ theorem reader_accepts (cfg : Cfg) (codec : Codec) (env : Names) (schema : Schem
     ∃ n, ∀ fuel, n ≤ fuel →
       readFile cfg codec env fuel schema (magic ++ menc ++ marker ++ blocks.flatMap (blockOf codec marker)) =
         .ok (es, marker, blocks.flatMap Items.values, .clean) := by
-  obtain ⟨n1, H1⟩ := header_accepted cfg hl h1 h2 hP es menc marker hm hspec
+  obtain ⟨n1, H1⟩ := header_accepted cfg hl h1 h2 es menc marker hm hspec
   obtain ⟨n2, H2⟩ := hdec
   refine ⟨max n1 n2, fun fuel hf => ?_⟩
   unfold readFile
